@@ -333,8 +333,50 @@ func cmdC19(c *ctx) {
 			d = diffOutputs(base, after, true)
 			c.line("e2e.txt", fmt.Sprintf("%s %s %s %s", "rename", q(d), q(src), q(s4)))
 			c.count("e2e-rename")
+			// per-function renaming: the locals and parameters of every function are renamed to the same small pool
+			// loc0, loc1, … (function scopes are disjoint, the generator's names are unique, so nothing is captured):
+			// a name now means a `let` pointer in one function, a `var` in the next, a parameter in a third
+			s7 := reuseLocalNames(src)
+			if s7 != src {
+				after = compileAll(s7, ep)
+				d = diffOutputs(base, after, true)
+				c.line("e2e.txt", fmt.Sprintf("%s %s %s %s", "reuse-local-names", q(d), q(src), q(s7)))
+				c.count("e2e-reuse-local-names")
+			}
 		}
 	}
+}
+
+var localIdentRe = regexp.MustCompile(`\b(vv|ll|kk|ii|pp)([0-9]+(_[0-9]+)?)\b`)
+var fnHeadRe = regexp.MustCompile(`(?m)^(@[^\n]*\n)*fn \w+\(`)
+
+// reuseLocalNames renames, function by function, every local / parameter name to locK with K counting first
+// occurrences inside that function only.
+func reuseLocalNames(src string) string {
+	locs := fnHeadRe.FindAllStringIndex(src, -1)
+	if len(locs) == 0 {
+		return src
+	}
+	var b strings.Builder
+	b.WriteString(src[:locs[0][0]])
+	for i, l := range locs {
+		end := len(src)
+		if i+1 < len(locs) {
+			end = locs[i+1][0]
+		}
+		seg := src[l[0]:end]
+		names := map[string]string{}
+		seg = localIdentRe.ReplaceAllStringFunc(seg, func(w string) string {
+			if n, ok := names[w]; ok {
+				return n
+			}
+			n := fmt.Sprintf("loc%d", len(names))
+			names[w] = n
+			return n
+		})
+		b.WriteString(seg)
+	}
+	return b.String()
 }
 
 var userIdentRe = regexp.MustCompile(`\b(vv|ll|kk|ii|pp|gp|KK|SH|SX|helper|St|fld)([0-9]+(_[0-9]+)?)\b`)
